@@ -58,7 +58,12 @@ main_lean = imports + main_lean[head_end:disp_start] + dispatch + main_lean[disp
 open(os.path.join(ROOT, "lean", "Driver", "Main.lean"), "w").write(main_lean)
 mr = open(os.path.join(ROOT, "harness", "src", "main.rs")).read()
 mr = re.sub(r"(?m)^mod c\d\d;\n", "", mr)
-mr = mr.replace("mod rng;\n", "mod rng;\n" + "".join("mod %s;\n" % i.lower() for i in integrated), 1)
+# harness modules that are not a property of their own (`sys`: the end-to-end slice hosted in C01,
+# dispatched to from c01.rs); listed in props.d/_meta.json `extra_harness_modules`
+extra_mods = meta.get("extra_harness_modules", [])
+for x in extra_mods:
+    mr = re.sub(r"(?m)^mod %s;\n" % re.escape(x), "", mr)
+mr = mr.replace("mod rng;\n", "mod rng;\n" + "".join("mod %s;\n" % i.lower() for i in integrated) + "".join("mod %s;\n" % x for x in extra_mods), 1)
 mr = re.sub(r'(?m)^        "C\d\d" => Some\(\(c\d\d::gen, c\d\d::exec\)\),\n', "", mr)
 mr = mr.replace("    match id {\n", "    match id {\n" + "".join('        "%s" => Some((%s::gen, %s::exec)),\n' % (i, i.lower(), i.lower()) for i in integrated), 1)
 mr = re.sub(r'(?m)^        "c\d\d" => c\d\d::child\(&args\[1\.\.\]\),\n', "", mr)
